@@ -139,6 +139,7 @@ class Inliner:
 
     # ----------------------------------------------------------- inlining
     def inline(self, fn):
+        self._cur = fn.path
         locals_ = copy.deepcopy(fn.locals)
         blocks = copy.deepcopy(fn.blocks)
         prov = [(fn.path, i, ()) for i in range(len(blocks))]
@@ -367,7 +368,7 @@ class Inliner:
         f, sub = self.resolve(callee, self_subst)
         if f is None:
             if callee.get("local") or callee.get("crate") == self.facts.crate:
-                self.unresolved.append(callee["full"])
+                self.unresolved.append((callee["full"], self._cur))
             return None, None, None
         return f, sub, t["args"]
 
